@@ -62,6 +62,17 @@ def main():
                 C.log(r["log"][-3000:])
     bins = []
     for s in specs:
+        if s.get("harness_build"):
+            # the SPEC brings its own implementation build (e.g. the pyharness crate)
+            try:
+                r = s["harness_build"](s["harness_bin"])
+            except Exception as e:
+                r = dict(ok=False, log=repr(e))
+            C.log("harness %s (own build): %s" % (s["harness_bin"], "ok" if r.get("ok") else "FAILED"))
+            if not r.get("ok"):
+                ok = False
+                C.log(str(r.get("log", ""))[-3000:])
+            continue
         if s["harness_bin"] not in bins:
             bins.append(s["harness_bin"])
     for b in bins:
